@@ -176,6 +176,17 @@ func (n *JNode) Build() any {
 		return stk.Stack{}
 	case "zcond":
 		return stk.Condition{}
+	case "other":
+		// values of Go types the package has no idea about, each time a fresh one
+		switch n.I % 4 {
+		case 0:
+			return []func(...any) bool{func(...any) bool { return true }, func(...any) bool { return false }}
+		case 1:
+			return [2]func() int{func() int { return 1 }, func() int { return 2 }}
+		case 2:
+			return map[string]func(){"f": func() {}}
+		}
+		return struct{ F []func() }{[]func(){func() {}}}
 	}
 	panic("JNode.Build: unknown kind " + n.T)
 }
@@ -577,14 +588,22 @@ func runMarshalRT(raw json.RawMessage) (*Result, error) {
 	tag(panicked, "panic")
 	tag(merr, "marshal-error")
 	tag(eqab && eqba, "isequal-ok")
+	invariant := ""
+	if !rtProbed {
+		rtProbed = true
+		invariant = ptrExprProbe()
+	}
 	obs := map[string]any{"panic": panicked, "u1": u1, "marshal_err": merr, "walk": walk, "u2": u2,
 		"isequal_ab": eqab, "isequal_ba": eqba}
 	if panicked {
 		obs["panic_at"] = step
 		obs["panic_text"] = panicText
 	}
-	return &Result{Coq: coq, Observed: obs, Tags: joinTags(tags), Nontrivial: st.nodes >= 4 && (st.depth >= 2 || st.conds > 0)}, nil
+	return &Result{Coq: coq, Observed: obs, Tags: joinTags(tags), Invariant: invariant, Nontrivial: st.nodes >= 4 && (st.depth >= 2 || st.conds > 0)}, nil
 }
+
+// rtProbed: the pointer-expression probe runs with the first case of a run
+var rtProbed bool
 
 type rtGen struct {
 	r        *Rng
@@ -1151,8 +1170,10 @@ func (g *jkGen) scalar() *JNode {
 		return &JNode{T: "float", Ty: 21, F: 1.5}
 	case x < 80:
 		return &JNode{T: "nil"}
-	case x < 88:
+	case x < 86:
 		return &JNode{T: "tnil", P: []string{"int", "str", "stack", "cond", "int2", "stack2", "str3"}[g.r.Intn(7)]}
+	case x < 89:
+		return &JNode{T: "other", I: int64(g.r.Intn(4))}
 	}
 	return g.operator()
 }
@@ -1275,6 +1296,8 @@ func genMarshalJunk(ctx *Ctx, emit func(any, string)) {
 		{jlist(jlist(jlist(jstr("OR"), jint(1))))},
 		{jstr("CONDITION"), jstr("k"), eq, jstr("v")},
 		{jstr(" and "), jstr("a"), jstr("b")},
+		{jstr("and"), {T: "other", I: 0}, jstr("b")},
+		{jstr("or"), jlist(jstr("CONDITION"), jstr("k"), eq, &JNode{T: "other", I: 0}), {T: "other", I: 1}, {T: "other", I: 2}, {T: "other", I: 3}},
 		{jstr("and"), jstr("cn=Jesse"), jstr("ou=People\\")},
 		{jstr("or"), jstr("\\"), jlist(jstr("list"), jstr("a\\ "), jstr("b\\"))},
 		{jstr("list\t"), jstr("a"), jstr("b")},
